@@ -1,4 +1,5 @@
 """C08 - session parameters are negotiated as the intersection of both OPEN messages."""
+import concurrent.futures
 import itertools
 import json
 import random
@@ -11,6 +12,7 @@ NAMES = ["las", "peer", "lv4", "lv6", "lvpn4", "lhold", "lka", "lgr", "ras", "rh
          "rother", "rext", "rgr", "layout", "order", "bulk"]
 PEER, LHOLD, LKA, RHOLD = 1, 5, 6, 9
 ACCEPT = {PEER: [1, 2], RHOLD: [1, 4, 5, 6, 7]}          # configurations x OPENs that must come up
+CHUNK = 250
 BASE = [1, 1, 2, 1, 1, 1, 1, 1, 1, 6, 2, 1, 1, 1, 1, 1, 1, 1, 2]
 
 
@@ -168,17 +170,29 @@ def main(run: Run):
     else:
         groups = sorted(suites(run.tier, run.seed).items())
     total = 0
+    jobs = []
     for name, picks in groups:
         behs = run.replay_behaviours(name) if run.replay else expand(run, name, picks)
         if not behs:
             continue
         total += len(behs)
-        for i in range(0, len(behs), 400):
-            chunk = behs[i:i + 400]
-            traces = run.execute("c08", "pkg/server", "^TestVerifC08$", chunk, tag="c08-%s-%d" % (name, i),
-                                 timeout=1500)
-            run.validate("NegotiateTrace", "NegotiateTrace.cfg", traces, chunk,
-                         known_cfg="NegotiateKF.cfg", group=name)
+        jobs += [(name, i, behs[i:i + CHUNK]) for i in range(0, len(behs), CHUNK)]
+    if not jobs:
+        return
+    # the first harness run builds the test binary; the others run a few at a time (every behaviour
+    # is a handful of fresh in-memory servers, the chunks are independent processes)
+    run.overlay("c08", "pkg/server")
+
+    def ex(job):
+        name, i, chunk = job
+        return run.execute("c08", "pkg/server", "^TestVerifC08$", chunk, tag="c08-%s-%d" % (name, i),
+                           env={"GOGC": "400"}, timeout=1500)
+    results = [ex(jobs[0])]
+    with concurrent.futures.ThreadPoolExecutor(max_workers=3 if thorough else 2) as pool:
+        results += list(pool.map(ex, jobs[1:]))
+    for (name, i, chunk), traces in zip(jobs, results):
+        run.validate("NegotiateTrace", "NegotiateTrace.cfg", traces, chunk,
+                     known_cfg="NegotiateKF.cfg", group=name)
     run.extra["behaviours"] = total
 
 
